@@ -276,10 +276,13 @@ class ResourceMap:
         supermap).
         """
         # Before scrapping everything, update their parent information
-        for handle in self.handles.values():
-            if handle.parent == self:
-                handle.parent = None
-                handle.key = None
+        # (handles is a ChainMap: shadowed handles in deeper layers
+        # are part of this map too)
+        for layer in self.handles.maps:
+            for handle in layer.values():
+                if handle.parent == self:
+                    handle.parent = None
+                    handle.key = None
 
         for map_ in self.maps.values():
             if map_.parent == self:
@@ -287,6 +290,8 @@ class ResourceMap:
                 map_.key = None
 
         self.maps.clear()
+        # ChainMap.clear only empties the first layer
+        del self.handles.maps[1:]
         self.handles.clear()
 
     def get_static_map(self) -> StaticResourceMap:
